@@ -177,6 +177,37 @@ def keepIdx (del : List Nat) : List Val → Nat → List Val
   | [], _ => []
   | e :: es, i => if del.contains i then keepIdx del es (i + 1) else e :: keepIdx del es (i + 1)
 
+/-- `Hash.new(tree, 'tree')` (hashtype.go, first Go constructor of `Hash`): put `v` at `path`, creating nested hashes on
+    the way; an existing non-hash value on the way makes the item a no-op.  After "fix: Hash.new(tree) answered a hash
+    whose nested hashes are MutableHashValues" the nested builders are frozen into plain hashes, which is what this
+    pure function yields. -/
+def treeInsert : List Val → List Val → Val → List Val
+  | es, [], _ => es
+  | es, [k], v => mergeEntries es [.ent k v]
+  | es, k :: rest, v =>
+    match idxOf es k.key with
+    | some i =>
+      match es[i]? with
+      | some (.ent _ (.hsh inner)) => mergeEntries es [.ent k (.hsh (treeInsert inner rest v))]
+      | _ => es
+    | none => mergeEntries es [.ent k (.hsh (treeInsert [] rest v))]
+
+def treeBuild (items : List Val) : List Val :=
+  items.foldl (fun es item => match item with
+    | .arr [.arr path, v] => treeInsert es path v
+    | _ => es) []
+
+def isStr : Val → Bool
+  | .str _ => true
+  | _ => false
+
+/-- the inputs of `tree` the harness admits: a non-empty array of `[path, int]` with non-empty paths of strings -/
+def treeShape : Val → Bool
+  | .arr (it :: its) => (it :: its).all fun item => match item with
+    | .arr [.arr (k :: ks), .int _] => (k :: ks).all isStr
+    | _ => false
+  | _ => false
+
 def pairsFlat : List Val → List Val
   | [] => []
   | e :: es => entKey e :: entVal e :: pairsFlat es
@@ -196,13 +227,13 @@ inductive Elem
   deriving Repr
 
 inductive Op
-  | lit (v : Val) | parse (v : Val) | coll (cap : Int) (v : Val) | mnew
+  | lit (v : Val) | parse (v : Val) | coll (cap : Int) (v : Val) | mnew | tree (v : Val)
   | add (r : Nat) (x : Elem) | addAll (r s : Nat) | delete (r : Nat) (x : Elem) | deleteAll (r s : Nat)
   | slice (r : Nat) (i j : Int) | map (r : Nat) (f : Fn) | select (r : Nat) (p : Pred) | reject (r : Nat) (p : Pred)
   | sort (r : Nat) | flatten (r : Nat) | unique (r : Nat) | at (r : Nat) (i : Int)
   | merge (r s : Nat) | keys (r : Nat) | values (r : Nat) | entries (r : Nat) | mapValues (r : Nat) (f : Fn)
   | selectPairs (r : Nat) (p : Pred) | rejectPairs (r : Nat) (p : Pred)
-  | mput (r : Nat) (k v : Elem) | mputAll (r s : Nat)
+  | mput (r : Nat) (k v : Elem) | mputAll (r s : Nat) | get (r : Nat) (x : Elem)
   | obs (r : Nat) (s : Option Nat)          -- ptype dtype tostring tokey walk ser / equals
   deriving Repr
 
@@ -402,6 +433,15 @@ def hashSem (look : Look) (r : Nat) (isMut : Bool) (es : List Val) : Op → Out
     match elemVal look k, elemVal look v with
     | some k', some v' => .new .mutPutAll .mut r (mergeEntries es [.ent k' v']) true
     | _, _ => inapplicable
+  | .get _ x =>
+    match elemVal look x with
+    | some k => match idxOf es k.key with
+      | some i => match es[i]? with
+        | some (.ent _ (.arr ys)) => .alloc .element .arr ys.length ys
+        | some (.ent _ (.hsh hs)) => .alloc .element .hsh hs.length hs
+        | _ => inapplicable
+      | none => inapplicable
+    | none => inapplicable
   | .mputAll _ s =>
     match look s with
     | some (sk, os) => if !isMut || sk == .arr then inapplicable else .new .mutPutAll .mut r (mergeEntries es os) true
@@ -413,10 +453,10 @@ def hashSem (look : Look) (r : Nat) (isMut : Bool) (es : List Val) : Op → Out
   | _ => inapplicable
 
 def Op.recv? : Op → Option Nat
-  | .lit _ | .parse _ | .coll _ _ | .mnew => none
+  | .lit _ | .parse _ | .coll _ _ | .mnew | .tree _ => none
   | .add r _ | .addAll r _ | .delete r _ | .deleteAll r _ | .slice r _ _ | .map r _ | .select r _ | .reject r _
   | .sort r | .flatten r | .unique r | .at r _ | .merge r _ | .keys r | .values r | .entries r | .mapValues r _
-  | .selectPairs r _ | .rejectPairs r _ | .mput r _ _ | .mputAll r _ | .obs r _ => some r
+  | .selectPairs r _ | .rejectPairs r _ | .mput r _ _ | .mputAll r _ | .get r _ | .obs r _ => some r
 
 def opSem (look : Look) (op : Op) : Out :=
   match op with
@@ -424,6 +464,9 @@ def opSem (look : Look) (op : Op) : Out :=
   | .parse v => if v.hasLiteral then ctor .buildArray .buildHash (fun _ => 0) v else inapplicable
   | .coll c v => if c < 0 || c > 64 then inapplicable else ctor .buildArray .buildHash (fun _ => c.toNat) v
   | .mnew => .alloc .newMutable .mut 7 []
+  | .tree v => match v with
+    | .arr items => if treeShape v then .alloc .element .hsh 0 (treeBuild items) else inapplicable
+    | _ => inapplicable
   | op =>
     match op.recv? with
     | none => inapplicable
